@@ -150,6 +150,44 @@ class SymCtx(_Base):
         """bytes [off:off+length) of the opaque stream `stream`"""
         return SymBytes.opaque(stream, length, off, kind)
 
+    def stream_name(self, data, length):
+        """name of the opaque stream if `data` is exactly stream[0:length], else None"""
+        if not isinstance(data, SymBytes):
+            return None
+        from .sbytes import _merge, OPart
+        parts = _merge(data.parts)
+        if len(parts) != 1 or not isinstance(parts[0], OPart):
+            return None
+        p = parts[0]
+        if self.eng.must_hold(z3.And(iterm(p.off) == 0, iterm(p.ln) == length)):
+            return p.stream
+        return None
+
+    def run_in_thread(self, fn):
+        """run fn() to completion on a helper thread that shares this path's engine (own thread-locals)"""
+        import threading
+        interp = self.interp
+        eng = self.eng
+        box = {}
+        saved = (interp.exc_stack, interp.depth)
+
+        def body():
+            E.set_current(eng)
+            interp.exc_stack = []
+            interp.depth = 0
+            try:
+                interp.call_value(fn, (), {})
+            except BaseException as x:
+                box["exc"] = x
+            finally:
+                E.set_current(None)
+        th = threading.Thread(target=body)
+        th.start()
+        th.join()
+        interp.exc_stack, interp.depth = saved
+        if "exc" in box:
+            raise box["exc"]
+
     # ---- claims ------------------------------------------------------------------------------
     def assume(self, cond, why=""):
         if cond is True:
@@ -260,6 +298,7 @@ class ConcCtx(_Base):
         self.strict = strict
         self.assume_failed = False
         self.fresh_n = 0
+        self.pieces = {}
 
     def _get(self, name, default):
         if name in self.values:
@@ -299,7 +338,31 @@ class ConcCtx(_Base):
 
     def stream_piece(self, stream, off, length, kind="bytes"):
         b = stream_content(stream, off + length)[off:off + length]
+        self.pieces[bytes(b)] = (stream, off, length)
         return {"bytes": bytes, "bytearray": bytearray, "memoryview": memoryview}[kind](b)
+
+    def stream_name(self, data, length):
+        if not isinstance(data, (bytes, bytearray, memoryview)):
+            return None
+        hit = self.pieces.get(bytes(data))
+        if hit is None or hit[1] != 0 or hit[2] != length:
+            return None
+        return hit[0]
+
+    def run_in_thread(self, fn):
+        import threading
+        box = {}
+
+        def body():
+            try:
+                fn()
+            except BaseException as x:
+                box["exc"] = x
+        th = threading.Thread(target=body)
+        th.start()
+        th.join()
+        if "exc" in box:
+            raise box["exc"]
 
     def assume(self, cond, why=""):
         if not cond:
